@@ -150,9 +150,17 @@ Definition rlm_constructible (knots : list Qc) (idx : nat) : bool := (idx + 1 <?
    __call__ and _modified_derivative use them): `obs i x` is the observable of LagrangeBasis(p, i, knots) at x,
    `one` the result on level 1 (1.0 for the value, 0.0 for the derivatives).
    The correction factor uses LagrangeBasis.get_second_derivative(self, border) (unrestricted). *)
+(* get_boundaries of the modified class (fix 7946b5e): the level-1 function (the constant 1) is supported on the whole
+   domain [a, b] - the knot window of a low order must not cut it to one half -, every other level keeps the two
+   neighbouring knots of the restricted class *)
+Definition rlm_lo (knots : list Qc) (idx : nat) (a : Qc) (level : nat) : Qc := if (level =? 1)%nat then a else rl_lo knots idx.
+Definition rlm_hi (knots : list Qc) (idx : nat) (b : Qc) (level : nat) : Qc := if (level =? 1)%nat then b else rl_hi knots idx.
+Definition rlm_in_support (knots : list Qc) (idx : nat) (a b : Qc) (level : nat) (x : Qc) : bool :=
+  Qc_leb (rlm_lo knots idx a level) x && Qc_leb x (rlm_hi knots idx b level).
+
 Definition rlm_obs (obs : nat -> Qc -> Qc) (one : Qc)
            (p : nat) (knots : list Qc) (idx : nat) (a b : Qc) (level : nat) (x : Qc) : Qc :=
-  if rl_in_support knots idx x then
+  if rlm_in_support knots idx a b level x then
     if (level =? 1)%nat then one else
     let r := obs idx x in
     if rlm_left knots idx a then
